@@ -10,7 +10,7 @@
    association list name -> sampler definition (Go map: names are unique; lookups use the first
    match).  A sampler definition is abstracted to its type tag and the field list it reads
    (GetSamplingFields).  No proofs in this file. *)
-From Refinery Require Import Lib.Base Model.TraceKey.
+From Refinery Require Import Lib.Base Lib.Strs_samp.
 From Refinery Require Gen.GenC14.
 
 (* ---------- IsLegacyAPIKey ---------- *)
@@ -78,9 +78,9 @@ Fixpoint compact (l : list str) : list str :=
               end
   end.
 
-(* (allFields, nonRootFields).  An empty field name makes the Go code panic (field[0]); that input
-   belongs to C28 and is treated here as an ordinary non-root name. *)
-Definition get_key_fields (fields : list str) : list str * list str :=
+(* (allFields, nonRootFields).  Empty field names are skipped. *)
+Definition get_key_fields (fields0 : list str) : list str * list str :=
+  let fields := filter (fun f => negb (str_eqb f [])) fields0 in
   let rootf := map (fun f => skipn (length ROOTP14) f) (filter (has_prefix ROOTP14) fields) in
   let nonroot := filter (fun f => negb (has_prefix ROOTP14 f) && negb (has_prefix COMPP f)) fields in
   match rootf, nonroot with
